@@ -11,6 +11,7 @@ RULE = ("every multiset of <=N (address,count) ranges over a boundary alphabet (
         "overlapping/nested/adjacent/duplicate shapes) x every reach x every limit; shatter over address x count x limit. "
         "non-trivial = distinct (ranges,reach,limit) where at least two input ranges interact (overlap, touch or lie "
         "within reach) or the output differs from the sorted input")
+BOUNDS_NOTE = "poller: every non-empty subset of 7 addresses in 3 banks x reach {1,3,100} x {no failure, one transient read failure at read k of cycle c, a register added later}, 4 poll cycles of the real poller_modbus._poller under a virtual clock"
 BOUNDS = {
     "quick": "multisets of <=3 ranges over 73-range alphabet, of 4 over the 24-range low cluster; reach {None,0,1,2,5,100}; limit {None,1,2,3}",
     "thorough": "multisets of <=4 ranges over the full 73-range alphabet; same reach/limit; shatter counts 0..2100",
@@ -54,10 +55,15 @@ def check_merge(ranges, reach, limit):
         out = list(plc_modbus.merge(list(ranges), reach=reach, limit=limit))
     except Exception as exc:
         return [("merge-exception", "merge(%r, reach=%r, limit=%r) raised %r" % (ranges, reach, limit, exc))], None
-    bad = []
     want = set()
     for a, c in ranges:
         want.update(range(a, a + c))
+    return validate(out, want, ranges, reach, limit), out
+
+
+def validate(out, want, ranges, reach, limit):
+    """the statement's clauses on a list of output ranges `out` for the requested register set `want`"""
+    bad = []
     got = set()
     prev_end = None
     r = reach or 1
@@ -84,7 +90,125 @@ def check_merge(ranges, reach, limit):
         if far:
             bad.append(("beyond-reach", "merge(%r, reach=%r, limit=%r) -> %r polls %r, not within reach of any requested register"
                         % (ranges, reach, limit, out, sorted(far)[:10])))
-    return bad, out
+    return bad
+
+
+# ------------------------------------------------------------------------------------------------------
+# the poller: "polls exactly the merged ranges and stores only known addresses" -- the real poller_modbus._poller loop under a
+# virtual clock with a scripted device (reads may fail transiently), for several poll cycles
+
+POLL_ADDRS = [1, 2, 10001, 40001, 40002, 40004, 40010]
+
+
+def run_poller(addresses, reach, cycles, fail, add_later):
+    """fail: set of (cycle, k) -- the k-th read of that cycle raises ModbusException.  add_later: (cycle, address) or None.
+    -> [(kind, msg)]"""
+    import cpppo
+    from cpppo.remote import plc_modbus as pm
+    from pymodbus.exceptions import ModbusException
+    bad = []
+    clock = [1000.0]
+    p = object.__new__(pm.poller_modbus)
+    pm.poller.__init__(p, description="verif", rate=1.0)
+
+    class Client:
+        timeout = True
+
+        def __enter__(self):
+            return self
+
+        def __exit__(self, *a):
+            return False
+
+        def connect(self):
+            return True
+
+    p.client, p.unit, p.done, p.reach, p.multi = Client(), 0, False, reach, False
+    p.polling, p.failing, p.duration, p.counter, p.load = set(), set(), 0.0, 0, (None, None, None)
+    for a in addresses:
+        p._poll(a)
+    device = lambda a: (a * 7 + 3) % 65536
+    log = {}
+    known = [set(addresses)]
+
+    def _read(address, count=1, **kw):
+        cyc = p.counter
+        reads = log.setdefault(cyc, [])
+        k = len(reads)
+        reads.append((address, count, (cyc, k) in fail))
+        if (cyc, k) in fail:
+            raise ModbusException("scripted transient failure")
+        vals = [device(address + i) for i in range(count)]
+        return vals if count > 1 else vals[0]
+
+    p._read = _read
+
+    class TimeShim:
+        def sleep(self, d):
+            clock[0] += max(d, 0.0)
+            if p.counter >= cycles:
+                p.done = True
+            if add_later is not None and p.counter == add_later[0] and add_later[1] not in p._data:
+                p._poll(add_later[1])
+                known.append(set(p._data))
+
+        def __getattr__(self, name):
+            import time as _t
+            return getattr(_t, name)
+
+    real_time, real_timer = pm.time, cpppo.misc.timer
+    pm.time = TimeShim()
+    cpppo.misc.timer = lambda: clock[0]
+    steps = [0]
+    try:
+        guard_sleep = pm.time.sleep
+
+        def sleep(d):
+            steps[0] += 1
+            if steps[0] > 5000:
+                p.done = True
+            guard_sleep(d)
+        pm.time.sleep = sleep
+        p._poller()
+    except Exception as exc:
+        bad.append(("poller-exception", "poller loop raised %s: %s" % (type(exc).__name__, exc)))
+    finally:
+        pm.time, cpppo.misc.timer = real_time, real_timer
+    if steps[0] > 5000:
+        bad.append(("poller-no-progress", "poller did not complete %d cycles" % cycles))
+    desc = "addresses %r reach %r failures %r later %r" % (sorted(addresses), reach, sorted(fail), add_later)
+    for cyc in range(cycles):
+        reads = log.get(cyc, [])
+        must = set(addresses)                     # registers that certainly were known before this cycle's merge
+        may = set(addresses)                      # ... and those that may have been (registered while this cycle was starting)
+        if add_later is not None:
+            if cyc > add_later[0]:
+                must.add(add_later[1])
+            if cyc >= add_later[0]:
+                may.add(add_later[1])
+        ranges = [(a, c) for a, c, _ in reads]
+        for kind, msg in validate(sorted(ranges), must, sorted((a, 1) for a in must), reach, None):
+            if kind == "beyond-reach":
+                continue
+            bad.append(("poller:" + kind, "cycle %d of %s: %s" % (cyc, desc, msg)))
+        for kind, msg in validate(sorted(ranges), may, sorted((a, 1) for a in may), reach, None):
+            if kind == "beyond-reach":
+                bad.append(("poller:" + kind, "cycle %d of %s: %s" % (cyc, desc, msg)))
+        if len(set(ranges)) != len(ranges):
+            bad.append(("poller:range-polled-twice", "cycle %d of %s polled %r" % (cyc, desc, ranges)))
+    extra = set(p._data) - set(addresses) - ({add_later[1]} if add_later else set())
+    if extra:
+        bad.append(("poller:stored-unknown-address", "%s: poller stored addresses nobody asked for: %r" % (desc, sorted(extra))))
+    # values: every address whose last read succeeded holds the device's value
+    last = {}
+    for cyc in range(cycles):
+        for a, c, failed in log.get(cyc, []):
+            for i in range(c):
+                last[a + i] = not failed
+    for a in addresses:
+        if last.get(a) and p._data.get(a) != device(a):
+            bad.append(("poller:wrong-value", "%s: address %d holds %r, device has %r" % (desc, a, p._data.get(a), device(a))))
+    return bad
 
 
 def check_shatter(a, c, limit):
@@ -174,6 +298,38 @@ def shard(acc, item, tier, seed):
         acc.sample({"op": "shatter", "address": 40001, "count": lo + 1, "limit": None})
 
 
+def poller_cases(tier):
+    import itertools as it
+    subsets = []
+    for k in range(1, len(POLL_ADDRS) + 1):
+        for sub in it.combinations(POLL_ADDRS, k):
+            subsets.append(sub)
+    for sub in subsets:
+        for reach in (1, 3, 100):
+            fails = [frozenset()] + [frozenset({(c, k)}) for c in (0, 1) for k in (0, 1, 2)]
+            if tier != "quick":
+                fails += [frozenset({(0, 0), (1, 0)}), frozenset({(1, 0), (1, 1)}), frozenset({(0, 1), (2, 0)})]
+            for f in fails:
+                yield sub, reach, 4, f, None
+            yield sub, reach, 4, frozenset({(1, 0)}), (1, 40003)
+            yield sub, reach, 4, frozenset(), (0, 3)
+
+
+def poller_shard(acc, item, tier, seed):
+    _, k, K = item
+    for i, (sub, reach, cycles, f, later) in enumerate(poller_cases(tier)):
+        if i % K != k:
+            continue
+        acc.ev()
+        if f or later:
+            acc.ntc()
+        acc.outcome("poller:%s" % ("failure" if f else "clean"))
+        for kind, msg in run_poller(sub, reach, cycles, set(f), later):
+            acc.violation(kind, {"op": "poller", "addresses": list(sub), "reach": reach, "cycles": cycles,
+                                 "fail": sorted(list(x) for x in f), "later": list(later) if later else None}, msg)
+    acc.sample({"op": "poller", "addresses": [1, 40001, 40002], "reach": 100, "cycles": 4, "fail": [[1, 0]], "later": None})
+
+
 def run(ctx):
     alpha = alphabet()
     items = []
@@ -190,7 +346,9 @@ def run(ctx):
     step = 100
     for lo in range(0, top, step):
         items.append(("shatter", lo, lo + step))
-    return ctx.pmap(__name__, "shard", items)
+    acc = ctx.pmap(__name__, "shard", items)
+    acc.merge(ctx.pmap(__name__, "poller_shard", [("poller", k, 32) for k in range(32)]))
+    return acc
 
 
 def guards(acc, ctx):
@@ -199,10 +357,17 @@ def guards(acc, ctx):
         g.append("fewer than 1000 cases where merge changed the ranges")
     if len(acc.outcomes) < 3:
         g.append("fewer than 3 distinct output sizes")
+    for k in ("poller:failure", "poller:clean"):
+        if not acc.outcomes.get(k):
+            g.append("outcome %s never observed" % k)
     return g
 
 
 def replay(case):
+    if case["op"] == "poller":
+        later = tuple(case["later"]) if case.get("later") else None
+        return [m for k, m in run_poller(tuple(case["addresses"]), case["reach"], case["cycles"],
+                                         set(tuple(x) for x in case["fail"]), later)]
     if case["op"] == "merge":
         bad, _ = check_merge(tuple(tuple(x) for x in case["ranges"]), case["reach"], case["limit"])
     else:
